@@ -363,6 +363,10 @@ Qed.
 Lemma sw_show_name_raw n e : c15_sw_raw n = true -> c15_sw_raw (sw_show_name n e) = true.
 Proof. intros H. unfold sw_show_name. destruct e; [|exact H]. now rewrite !sw_raw_app, H. Qed.
 
+(* swift.rs:490 / :591: the tag / content key goes through swift_keyword_aware_rename; a back tick is a plain character *)
+Lemma sw_keyword_aware_plain k : plain k = true -> plain (swift_keyword_aware_rename k) = true.
+Proof. intros H. unfold swift_keyword_aware_rename. apply sw_show_name_plain, H. Qed.
+
 Lemma swn_enum_decomp e : sw_enum_ok e = true -> DS (sw_render_enum e) (c15_sites false (sw_enum_docs e)).
 Proof.
   unfold sw_enum_ok, sw_render_enum, sw_enum_docs. cbv zeta. intros H. c15_split_andb.
@@ -373,7 +377,10 @@ Proof.
   pose proof (proj1 (forallb_forall _ _) Hin) as HinF. pose proof (proj1 (forallb_forall _ _) Hvs) as HvsF.
   pose proof (sw_variant_keys_neutral _ Hvs) as Hkeys. pose proof (sw_raw_plain _ Hraw) as Hrp.
   destruct (swe_tagged e) as [[tag_key content_key]|]; c15_split_andb.
-  - eapply Decomp_eq;
+  - match goal with Hm : plain tag_key = true |- _ => pose proof (sw_keyword_aware_plain _ Hm) as Htk end.
+    match goal with Hm : plain content_key = true |- _ => pose proof (sw_keyword_aware_plain _ Hm) as Hck end.
+    set (tagk := swift_keyword_aware_rename tag_key) in *. set (contentk := swift_keyword_aware_rename content_key) in *.
+    eapply Decomp_eq;
       [swn_decomp ltac:(idtac; match goal with
          | |- Decomp _ _ (flat_map sw_render_struct _) _ =>
            apply (Decomp_flat_map C15sw NS sw_render_struct) with (g := fun s => c15_sites false (sw_struct_docs s));
